@@ -20,7 +20,7 @@ func verif_contract_IP4_IsValid(p IP4) error {
 	return err
 }
 
-// ---------- C15 ----------
+// ---------- C15: Internet checksum (RFC 1071) ----------
 
 // spec_lesum: sum of the little-endian 16-bit words of b[0:n], n even.
 func spec_lesum(b []byte, n int) uint32 {
@@ -30,16 +30,127 @@ func spec_lesum(b []byte, n int) uint32 {
 	return spec_lesum(b, n-2) + (uint32(b[n-1])<<8 | uint32(b[n-2]))
 }
 
+// spec_besum: RFC 1071 section 1: sum of the big-endian 16-bit words of b[0:n], n even.
+func spec_besum(b []byte, n int) uint32 {
+	if n <= 0 {
+		return 0
+	}
+	return spec_besum(b, n-2) + (uint32(b[n-2])<<8 | uint32(b[n-1]))
+}
+
+// spec_opq_fold: end-around-carry fold of a 32-bit sum to 16 bits.
+func spec_opq_fold(x uint32) uint16 {
+	x = (x >> 16) + (x & 0xffff)
+	x = x + (x >> 16)
+	return uint16(x)
+}
+
+// spec_opq_ocadd: one's complement addition of two 16-bit words.
+func spec_opq_ocadd(a, b uint16) uint16 {
+	x := uint32(a) + uint32(b)
+	x = (x >> 16) + (x & 0xffff)
+	x = x + (x >> 16)
+	return uint16(x)
+}
+func spec_opq_bswap16(x uint16) uint16 { return x<<8 | x>>8 }
+
+// spec_rfc1071: the RFC 1071 checksum of b as a big-endian 16-bit value
+// (an odd trailing byte is padded with a zero byte on the right).
+func spec_rfc1071(b []byte) uint16 {
+	n := len(b) &^ 1
+	s := spec_besum(b, n)
+	if len(b)&1 == 1 {
+		s += uint32(b[len(b)-1]) << 8
+	}
+	return ^spec_opq_fold(s)
+}
+
+// one's complement addition absorbs into a folded running sum
+//
+//verif:props C15
+func verif_lemma_fold_add(x uint32, w uint16) {
+	vReveal()
+	vRequires(x <= 0x7fff0000)
+	vAssert(spec_opq_fold(x+uint32(w)) == spec_opq_ocadd(spec_opq_fold(x), w))
+}
+
+// byte-order independence of one's complement addition (RFC 1071 section 2(B))
+//
+//verif:props C15
+func verif_lemma_ocadd_bswap(a, b uint16) {
+	vReveal()
+	vAssert(spec_opq_ocadd(spec_opq_bswap16(a), spec_opq_bswap16(b)) == spec_opq_bswap16(spec_opq_ocadd(a, b)))
+}
+
+//verif:props C15
+func verif_lemma_fold_zero() {
+	vReveal()
+	vAssert(spec_opq_fold(0) == 0 && spec_opq_bswap16(0) == 0)
+}
+
+//verif:props C15
+func verif_lemma_bswap_word(hi, lo byte) {
+	vReveal()
+	vAssert(uint32(spec_opq_bswap16(uint16(hi)<<8|uint16(lo))) == uint32(hi)|uint32(lo)<<8)
+	vAssert(uint32(uint16(hi)<<8|uint16(lo)) == uint32(hi)<<8|uint32(lo))
+	vAssert(spec_opq_bswap16(uint16(hi)<<8) == uint16(hi))
+}
+
+func verif_inv_verif_lemma_byteorder_1(b []byte, n int, i int) bool {
+	return n == len(b)&^1 && 0 <= i && i%2 == 0 && i <= n &&
+		spec_lesum(b, i) <= uint32(i)<<15 && spec_besum(b, i) <= uint32(i)<<15 &&
+		spec_opq_fold(spec_lesum(b, i)) == spec_opq_bswap16(spec_opq_fold(spec_besum(b, i)))
+}
+func verif_dec_verif_lemma_byteorder_1(n int, i int) int { return n - i }
+
+// the little-endian sum the library computes folds to the byte-swapped RFC sum
+//
+//verif:props C15
+func verif_lemma_byteorder(b []byte) {
+	vRequires(len(b) <= 65535)
+	n := len(b) &^ 1
+	verif_lemma_fold_zero()
+	for i := 0; i < n; i += 2 {
+		wbe := uint16(b[i])<<8 | uint16(b[i+1])
+		wle := spec_opq_bswap16(wbe)
+		L, B := spec_lesum(b, i), spec_besum(b, i)
+		L2, B2 := spec_lesum(b, i+2), spec_besum(b, i+2)
+		verif_lemma_bswap_word(b[i], b[i+1])
+		vAssert(L2 == L+uint32(wle) && B2 == B+uint32(wbe))
+		vAssert(L2 <= uint32(i+2)<<15 && B2 <= uint32(i+2)<<15)
+		verif_lemma_fold_add(L, wle)
+		verif_lemma_fold_add(B, wbe)
+		verif_lemma_ocadd_bswap(spec_opq_fold(B), wbe)
+		vAssert(spec_opq_fold(L2) == spec_opq_bswap16(spec_opq_fold(B2)))
+	}
+	vAssert(spec_lesum(b, n) <= uint32(n)<<15 && spec_besum(b, n) <= uint32(n)<<15)
+	vAssert(spec_opq_fold(spec_lesum(b, n)) == spec_opq_bswap16(spec_opq_fold(spec_besum(b, n))))
+}
+
 func verif_inv_Checksum_1(b []byte, csumcv int, s uint32, i int) bool {
 	return csumcv == len(b)-1 && 0 <= i && i%2 == 0 && i <= csumcv+1 && s == spec_lesum(b, i)
 }
 
 func verif_dec_Checksum_1(csumcv int, i int) int { return csumcv + 2 - i }
 
+// Checksum returns the RFC 1071 checksum in the byte order the library stores
+// it (low byte at the lower address), for every input up to the IP maximum.
+//
 //verif:props C15
 func verif_contract_Checksum(b []byte) uint16 {
+	vReveal()
 	vRequires(len(b) <= 65535)
 	ret := Checksum(b)
+	verif_lemma_byteorder(b)
+	n := len(b) &^ 1
+	if len(b)&1 == 1 {
+		t := b[len(b)-1]
+		verif_lemma_bswap_word(t, 0)
+		verif_lemma_fold_add(spec_lesum(b, n), uint16(t))
+		verif_lemma_fold_add(spec_besum(b, n), uint16(t)<<8)
+		verif_lemma_ocadd_bswap(spec_opq_fold(spec_besum(b, n)), uint16(t)<<8)
+	}
+	vEnsures(ret == spec_opq_bswap16(spec_rfc1071(b)))
 	return ret
 }
 
